@@ -19,7 +19,7 @@
 //! Mutators allow injecting controlled variations during pickle generation
 //! to create more diverse test cases for fuzzing and validation.
 
-use crate::generator::GenerationSource;
+use crate::generator::{EntropySource, GenerationSource};
 use clap::ValueEnum;
 
 use crate::stack::StackObjectRef;
@@ -124,6 +124,22 @@ impl MutatorKind {
             MutatorKind::Typeconfusion => Box::new(TypeConfusionMutator::new(unsafe_mode)),
         }
     }
+}
+
+/// Mutation gate shared by all mutators: `true` with probability `rate`.
+///
+/// Draws one f64 from the entropy source. The PRNG source yields [0, 1) already;
+/// fuzzer-provided doubles are arbitrary bit patterns (negative, huge, NaN, or the
+/// 0.0 fallback on exhausted input) and are folded into [0, 1) first. The
+/// comparison is strict, so rate 0.0 never mutates and rate 1.0 always does.
+pub(crate) fn should_mutate(source: &mut GenerationSource, rate: f64) -> bool {
+    let draw = source.gen_f64();
+    let unit = if draw.is_finite() {
+        draw.abs().fract()
+    } else {
+        0.0
+    };
+    unit < rate
 }
 
 /// Trait for implementing mutation strategies.
